@@ -1011,6 +1011,10 @@ func compileReturnStmt(context *funcContext, stmt *ast.ReturnStmt) { // {{{
 	if lastisvaarg {
 		count = 0
 	}
+	if lenexprs == 0 {
+		// no value: R(A) is not read, do not name a register beyond the frame
+		a = 0
+	}
 	context.Code.AddABC(OP_RETURN, a, count, 0, sline(stmt))
 } // }}}
 
